@@ -25,7 +25,7 @@ from vlib import cases, core, fixtures, fsgen, gen
 LEVEL = "fault_enumeration"
 
 ASAN_RE = re.compile(r"ERROR: AddressSanitizer: (\S+)")
-FRAME_RE = re.compile(r"#\d+ 0x[0-9a-f]+ in (.+?) (/repo/src/\S+?):(\d+)")
+FRAME_RE = re.compile(r"#\d+ 0x[0-9a-f]+ in (.+?) (%s/src/\S+?):(\d+)" % re.escape(core.REPO))
 
 
 def seeds(ctx, rng):
